@@ -1,0 +1,128 @@
+//go:build verif
+
+// Contracts for the verification engine in /verif (comment-only file; declares nothing).
+// Syntax: DESIGN.md section 3.3. Checked by /verif/bin/vcheck against the code in this package.
+
+package field
+
+//@ const P = 0xfffffffffffffffffffffffffffffffffffffffffffffffffffffffefffffc2f
+//@ const N = 0xfffffffffffffffffffffffffffffffebaaedce6af48a03bbfd25e8cd0364141
+//@ const R = 0x10000000000000000000000000000000000000000000000000000000000000000
+//@ const W = 0x10000000000000000
+
+//@ func cmovznzU64
+//@   mode bv
+//@   requires arg1 <= 1
+//@   ensures sel: *out1 == ite(arg1 == 0, arg2, arg3)
+//@   modifies *out1
+
+//@ func Selectznz
+//@   mode bv
+//@   requires c01: arg1 <= 1
+//@   ensures sel: forall(i, 0, 4, out1[i] == ite(arg1 == 0, old(arg2[i]), old(arg3[i])))
+//@   modifies *out1
+
+//@ func Nonzero
+//@   mode bv
+//@   ensures nz: (*out1 == 0) == (arg1[0] == 0 && arg1[1] == 0 && arg1[2] == 0 && arg1[3] == 0)
+//@   modifies *out1
+
+//@ func IsNonZero
+//@   mode bv
+//@   ensures r: result == ite(u == 0, 0, 1)
+
+//@ func IsZero
+//@   mode bv
+//@   ensures r: result == ite(u == 0, 1, 0)
+
+//@ func IsEqual
+//@   mode bv
+//@   ensures r: result == ite(u == v, 1, 0)
+
+//@ func Reduce
+//@   mode bv
+//@   ensures flag: result == ite(old(eval(x)) < P, 1, 0)
+//@   ensures val: eval(x) == ite(old(eval(x)) < P, old(eval(x)), old(eval(x)) - P)
+//@   modifies *x
+
+//@ func Element.Equals
+//@   mode bv
+//@   ensures limbs: result == ite(e.E[0] == u.E[0] && e.E[1] == u.E[1] && e.E[2] == u.E[2] && e.E[3] == u.E[3], 1, 0)
+
+// ---- Montgomery glue lemmas (Lean: lemmas/Secp/SecpG.lean) ----
+//@ declare finv(F) F
+
+//@ lemma glue_add(o, a, b) {lean: Secp.glue_add}: imp(a < P && b < P && o == (a + b) % P, fromM(o) == fadd(fromM(a), fromM(b)))
+//@ lemma glue_sub(o, a, b) {lean: Secp.glue_sub}: imp(a < P && b < P && o == (a - b) % P, fromM(o) == fsub(fromM(a), fromM(b)))
+//@ lemma glue_neg(o, a) {lean: Secp.glue_neg}: imp(a < P && o == (0 - a) % P, fromM(o) == fneg(fromM(a)))
+
+//@ func Add
+//@   mode int
+//@   requires eval(arg1) < P && eval(arg2) < P
+//@   ensures val: eval(out1) == (old(eval(arg1)) + old(eval(arg2))) % P
+//@   derives fv: fromM(eval(out1)) == fadd(fromM(old(eval(arg1))), fromM(old(eval(arg2)))) by glue_add(eval(out1), old(eval(arg1)), old(eval(arg2)))
+//@   derives wf: eval(out1) < P
+//@   modifies *out1
+
+//@ func Sub
+//@   mode int
+//@   requires eval(arg1) < P && eval(arg2) < P
+//@   ensures val: eval(out1) == (old(eval(arg1)) - old(eval(arg2))) % P
+//@   derives fv: fromM(eval(out1)) == fsub(fromM(old(eval(arg1))), fromM(old(eval(arg2)))) by glue_sub(eval(out1), old(eval(arg1)), old(eval(arg2)))
+//@   derives wf: eval(out1) < P
+//@   modifies *out1
+
+//@ func Opp
+//@   mode int
+//@   requires eval(arg1) < P
+//@   ensures val: eval(out1) == (0 - old(eval(arg1))) % P
+//@   derives fv: fromM(eval(out1)) == fneg(fromM(old(eval(arg1)))) by glue_neg(eval(out1), old(eval(arg1)))
+//@   derives wf: eval(out1) < P
+//@   modifies *out1
+
+//@ func SetOne
+//@   mode int
+//@   ensures val: eval(out1) == R % P
+//@   derives fv: fromM(eval(out1)) == F(1)
+//@   modifies *out1
+
+//@ declare modeq(Int, Int, Int) Bool
+//@ lemma glue_mul(o, a, b) {lean: Secp.glue_mul}: imp(a < P && b < P && o < P && modeq(o * R, a * b, P), fromM(o) == fmul(fromM(a), fromM(b)))
+
+//@ func Mul
+//@   mode staged
+//@   requires eval(arg1) < P && eval(arg2) < P
+//@   prelemma bound: old(eval(arg1)) * old(eval(arg2)) <= (P - 1) * (P - 1)
+//@   ensures mont: modeq(eval(out1) * R, old(eval(arg1)) * old(eval(arg2)), P)
+//@   ensures wf: eval(out1) < P
+//@   derives fv: fromM(eval(out1)) == fmul(fromM(old(eval(arg1))), fromM(old(eval(arg2)))) by glue_mul(eval(out1), old(eval(arg1)), old(eval(arg2)))
+//@   modifies *out1
+
+//@ const R2P = 0x1000007a2000e90a1
+//@ lemma glue_to(o, a) {lean: Secp.glue_to}: imp(a < P && o < P && modeq(o * R, a * R2P, P), fromM(o) == fofint(a))
+//@ lemma glue_from(o, a) {lean: Secp.glue_from}: imp(a < P && o < P && modeq(o * R, a, P), fint(fromM(a)) == o)
+
+//@ func Square
+//@   mode staged
+//@   requires eval(arg1) < P
+//@   prelemma bound: old(eval(arg1)) * old(eval(arg1)) <= (P - 1) * (P - 1)
+//@   ensures mont: modeq(eval(out1) * R, old(eval(arg1)) * old(eval(arg1)), P)
+//@   ensures wf: eval(out1) < P
+//@   derives fv: fromM(eval(out1)) == fmul(fromM(old(eval(arg1))), fromM(old(eval(arg1)))) by glue_mul(eval(out1), old(eval(arg1)), old(eval(arg1)))
+//@   modifies *out1
+
+//@ func FromMontgomery
+//@   mode staged
+//@   requires eval(arg1) < P
+//@   ensures mont: modeq(eval(out1) * R, old(eval(arg1)), P)
+//@   ensures wf: eval(out1) < P
+//@   derives fv: fint(fromM(old(eval(arg1)))) == eval(out1) by glue_from(eval(out1), old(eval(arg1)))
+//@   modifies *out1
+
+//@ func ToMontgomery
+//@   mode staged
+//@   requires eval(arg1) < P
+//@   ensures mont: modeq(eval(out1) * R, old(eval(arg1)) * R2P, P)
+//@   ensures wf: eval(out1) < P
+//@   derives fv: fromM(eval(out1)) == fofint(old(eval(arg1))) by glue_to(eval(out1), old(eval(arg1)))
+//@   modifies *out1
